@@ -283,7 +283,10 @@ def fallbackStep (s : St σo σc) (ctx : CallerCtx) (runSc : Option Script) (err
         match sc.act with
         | .panic v => (({ s.1 with concFb := s.1.concFb - 1 }, s.2), .panic v)
         | _ =>
-          let callerErr := match runSc with | some r => ctxErrAfter ctx r | none => ctx.err
+          -- the run function's own cancellation of the caller's context happened only if it was invoked
+          let callerErr := match runSc with
+            | some r => if s.2.runSeen.isSome then ctxErrAfter ctx r else ctx.err
+            | none => ctx.err
           let callerErr := match callerErr with | some e => some e | none => if sc.cancelCaller then some .canceled else none
           let r := actValue sc callerErr
           let (endT, s) := now s
